@@ -298,6 +298,26 @@ def gen_ops(seed, n, shard):
     names = list(BIN) + list(INP) + ["radd", "rsub", "rmul", "rdiv", "rmod", "rpow", "neg", "abs"]
     cnt = 0
     while cnt < n:
+        if cnt % 40 == 7:
+            # a tiny but NON-ZERO plain divisor is not a division by zero (only the outcome, the range and the operands
+            # are judged: the quotient itself is beyond the fixed-point range)
+            cnt += 1
+            xv = rng.choice([rng.uniform(-359, 359), 30.0, 1e-12, -1e-9])
+            yv = rng.choice([9e-11, -2.5e-11, 1e-200, -1e-150, 10.0 ** -rng.uniform(10, 280), 1e-10 * (1 - 2 ** -40)])
+            if not math.isfinite(xv / yv):
+                continue
+            a = Angle(xv)
+            opn = rng.choice(["div", "idiv"])
+            ev = {"k": "tinydiv", "op": opn, "xf": xv, "yf": yv, "x": fx(a())}
+            st0 = _state(a)
+            try:
+                res = (a / yv) if opn == "div" else INP["idiv"](a, yv)
+                ev.update(oc="ok", rty=1 if isinstance(res, Angle) else 0, r=fx(res() if isinstance(res, Angle) else 0.0))
+            except Exception as ex:
+                ev.update(oc=_oc(ex), rty=0, r=fx(0))
+            ev["same"] = 1 if _state(a) == st0 else 0
+            yield ev
+            continue
         op = rng.choice(names)
         ak, a = _operands(rng)
         if ak != "A":
